@@ -393,3 +393,188 @@ Proof.
   destruct (xi_dfs_fields_once_spec false d (xo_sels op)) as (l & s & H & E).
   exists l, s. split; [exact H|]. split; [exact (xi_iter_dfs false d (xo_sels op) l s H)|exact E].
 Qed.
+
+(* ---------------------------------------------------------------- what is reachable is visited *)
+
+(* fields / spread names occurring in l without following spreads (below fields only when all = true) *)
+Inductive XiLocal (all : bool) : list xsel -> xsel -> Prop :=
+| XiLocal_here l def alias name args dirs ty sub :
+    In (XsField def alias name args dirs ty sub) l ->
+    XiLocal all l (XsField def alias name args dirs ty sub)
+| XiLocal_field l def alias name args dirs ty sub f :
+    all = true -> In (XsField def alias name args dirs ty sub) l -> XiLocal all sub f -> XiLocal all l f
+| XiLocal_inline l cond dirs ty sub f :
+    In (XsInline cond dirs ty sub) l -> XiLocal all sub f -> XiLocal all l f.
+
+Inductive XiLSpread (all : bool) : list xsel -> str -> Prop :=
+| XiLSpread_here l name dirs : In (XsSpread name dirs) l -> XiLSpread all l name
+| XiLSpread_field l def alias name args dirs ty sub n :
+    all = true -> In (XsField def alias name args dirs ty sub) l -> XiLSpread all sub n -> XiLSpread all l n
+| XiLSpread_inline l cond dirs ty sub n :
+    In (XsInline cond dirs ty sub) l -> XiLSpread all sub n -> XiLSpread all l n.
+
+Lemma xi_local_cons_inv all x r f :
+  XiLocal all (x :: r) f ->
+  XiLocal all r f \/
+  match x with
+  | XsField _ _ _ _ _ _ sub => f = x \/ (all = true /\ XiLocal all sub f)
+  | XsInline _ _ _ sub => XiLocal all sub f
+  | XsSpread _ _ => False
+  end.
+Proof.
+  inversion 1 as [l df al nm ar di ty sub Hin|l df al nm ar di ty sub f' Hall Hin Hsub|l co di ty sub f' Hin Hsub];
+    subst; destruct Hin as [->|Hin].
+  - right. now left.
+  - left. now apply XiLocal_here.
+  - right. right. auto.
+  - left. eapply XiLocal_field; try reflexivity; try eassumption.
+  - right. exact Hsub.
+  - left. eapply XiLocal_inline; eassumption.
+Qed.
+
+Lemma xi_lspread_cons_inv all x r n :
+  XiLSpread all (x :: r) n ->
+  XiLSpread all r n \/
+  match x with
+  | XsField _ _ _ _ _ _ sub => all = true /\ XiLSpread all sub n
+  | XsInline _ _ _ sub => XiLSpread all sub n
+  | XsSpread name _ => name = n
+  end.
+Proof.
+  inversion 1 as [l nm di Hin|l df al nm ar di ty sub n' Hall Hin Hsub|l co di ty sub n' Hin Hsub];
+    subst; destruct Hin as [->|Hin].
+  - right. reflexivity.
+  - left. eapply XiLSpread_here; eassumption.
+  - right. auto.
+  - left. eapply XiLSpread_field; try reflexivity; try eassumption.
+  - right. exact Hsub.
+  - left. eapply XiLSpread_inline; eassumption.
+Qed.
+
+Lemma xi_local_nil all f : ~ XiLocal all [] f.
+Proof. inversion 1; contradiction. Qed.
+Lemma xi_lspread_nil all n : ~ XiLSpread all [] n.
+Proof. inversion 1; contradiction. Qed.
+
+(* what a walk from `seen` to `seen'` has covered *)
+Definition xi_covers (all : bool) (frags : list (str * xfrag)) (out : list xsel) (seen' : list str)
+    (l : list xsel) : Prop :=
+  (forall f, XiLocal all l f -> In f out) /\
+  (forall m defm, XiLSpread all l m -> xd_assoc m frags = Some defm -> xd_mem m seen' = true).
+
+Lemma xi_dfs_invariant all frags seen l out seen' :
+  XiDfs all frags seen l out seen' ->
+  (forall n, xd_mem n seen = true -> xd_mem n seen' = true) /\
+  xi_covers all frags out seen' l /\
+  (forall n def, xd_mem n seen' = true -> xd_mem n seen = false -> xd_assoc n frags = Some def ->
+                 xi_covers all frags out seen' (xf_sels def)).
+Proof.
+  induction 1 as
+    [seen
+    |seen seen1 seen2 def alias name args dirs ty sub r a b Ha IHa Hb IHb
+    |seen seen1 seen2 cond dirs ty sub r a b Ha IHa Hb IHb
+    |seen seen2 name dirs r b Hund Hb IHb
+    |seen seen2 name dirs def r b Hdef Hseen Hb IHb
+    |seen seen1 seen2 name dirs def r a b Hdef Hseen Ha IHa Hb IHb].
+  - split; [auto|]. split.
+    + split; [intros f Hf; now apply xi_local_nil in Hf|intros m dm Hm; now apply xi_lspread_nil in Hm].
+    + intros n def H1 H2. congruence.
+  - destruct IHa as (Ma & (La & Sa) & Fa). destruct IHb as (Mb & (Lb & Sb) & Fb).
+    split; [auto|]. split.
+    + split.
+      * intros f Hf. apply xi_local_cons_inv in Hf as [Hf|[->|[Hall Hf]]].
+        -- right. apply in_or_app. right. auto.
+        -- now left.
+        -- subst all. right. apply in_or_app. left. apply La. exact Hf.
+      * intros m dm Hm Hd. apply xi_lspread_cons_inv in Hm as [Hm|[Hall Hm]].
+        -- eapply Sb; eassumption.
+        -- subst all. apply Mb. eapply Sa; [exact Hm|exact Hd].
+    + intros n dn H2 H0 Hd. destruct (xd_mem n seen1) eqn:E1.
+      * destruct (Fa n dn E1 H0 Hd) as [L S]. split.
+        -- intros f Hf. right. apply in_or_app. left. auto.
+        -- intros m dm Hm Hdm. apply Mb. eapply S; eassumption.
+      * destruct (Fb n dn H2 E1 Hd) as [L S]. split.
+        -- intros f Hf. right. apply in_or_app. right. auto.
+        -- exact S.
+  - destruct IHa as (Ma & (La & Sa) & Fa). destruct IHb as (Mb & (Lb & Sb) & Fb).
+    split; [auto|]. split.
+    + split.
+      * intros f Hf. apply in_or_app. apply xi_local_cons_inv in Hf as [Hf|Hf]; [right|left]; auto.
+      * intros m dm Hm Hd. apply xi_lspread_cons_inv in Hm as [Hm|Hm].
+        -- eapply Sb; eassumption.
+        -- apply Mb. eapply Sa; eassumption.
+    + intros n dn H2 H0 Hd. destruct (xd_mem n seen1) eqn:E1.
+      * destruct (Fa n dn E1 H0 Hd) as [L S]. split.
+        -- intros f Hf. apply in_or_app. left. auto.
+        -- intros m dm Hm Hdm. apply Mb. eapply S; eassumption.
+      * destruct (Fb n dn H2 E1 Hd) as [L S]. split.
+        -- intros f Hf. apply in_or_app. right. auto.
+        -- exact S.
+  - destruct IHb as (Mb & (Lb & Sb) & Fb). split; [auto|]. split; [|exact Fb]. split.
+    + intros f Hf. apply xi_local_cons_inv in Hf as [Hf|[]]. auto.
+    + intros m dm Hm Hd. apply xi_lspread_cons_inv in Hm as [Hm|<-]; [eapply Sb; eassumption|congruence].
+  - destruct IHb as (Mb & (Lb & Sb) & Fb). split; [auto|]. split; [|exact Fb]. split.
+    + intros f Hf. apply xi_local_cons_inv in Hf as [Hf|[]]. auto.
+    + intros m dm Hm Hd. apply xi_lspread_cons_inv in Hm as [Hm|<-]; [eapply Sb; eassumption|auto].
+  - destruct IHa as (Ma & (La & Sa) & Fa). destruct IHb as (Mb & (Lb & Sb) & Fb).
+    assert (Mn : forall n, xd_mem n seen = true -> xd_mem n (name :: seen) = true).
+    { intros n Hn. rewrite xd_mem_cons, Hn. apply orb_true_r. }
+    split; [auto|]. split.
+    + split.
+      * intros f Hf. apply in_or_app. right. apply xi_local_cons_inv in Hf as [Hf|[]]. auto.
+      * intros m dm Hm Hd. apply xi_lspread_cons_inv in Hm as [Hm|<-]; [eapply Sb; eassumption|].
+        apply Mb, Ma. rewrite xd_mem_cons, streq_refl. reflexivity.
+    + intros n dn H2 H0 Hd. destruct (streq n name) eqn:En.
+      * apply streq_eq in En. subst n. assert (dn = def) by congruence. subst dn. split.
+        -- intros f Hf. apply in_or_app. left. auto.
+        -- intros m dm Hm Hdm. apply Mb. eapply Sa; eassumption.
+      * destruct (xd_mem n seen1) eqn:E1.
+        -- assert (H0' : xd_mem n (name :: seen) = false) by (rewrite xd_mem_cons, En, H0; reflexivity).
+           destruct (Fa n dn E1 H0' Hd) as [L S]. split.
+           ++ intros f Hf. apply in_or_app. left. auto.
+           ++ intros m dm Hm Hdm. apply Mb. eapply S; eassumption.
+        -- destruct (Fb n dn H2 E1 Hd) as [L S]. split.
+           ++ intros f Hf. apply in_or_app. right. auto.
+           ++ exact S.
+Qed.
+
+(* every reachable field is visited by a walk that starts with no fragment seen *)
+Theorem xi_dfs_visits_all_reachable all frags l out seen' :
+  XiDfs all frags [] l out seen' -> forall f, XiReach all frags l f -> In f out.
+Proof.
+  intros H. destruct (xi_dfs_invariant _ _ _ _ _ _ H) as (_ & Hl & Hfr).
+  assert (Hgood : forall L f, XiReach all frags L f -> xi_covers all frags out seen' L -> In f out).
+  { intros L f HR. induction HR as
+      [L df al nm ar di ty sub Hin
+      |L df al nm ar di ty sub f Hall Hin HR IH
+      |L co di ty sub f Hin HR IH
+      |L nm di def f Hin Hd HR IH]; intros [CL CS].
+    - apply CL. now apply XiLocal_here.
+    - apply IH. split.
+      + intros f' Hf'. apply CL. eapply XiLocal_field; eassumption.
+      + intros m dm Hm Hdm. eapply CS; [|exact Hdm]. eapply XiLSpread_field; eassumption.
+    - apply IH. split.
+      + intros f' Hf'. apply CL. eapply XiLocal_inline; eassumption.
+      + intros m dm Hm Hdm. eapply CS; [|exact Hdm]. eapply XiLSpread_inline; eassumption.
+    - apply IH. apply (Hfr nm def); [|reflexivity|exact Hd].
+      eapply CS; [|exact Hd]. eapply XiLSpread_here; eassumption. }
+  intros f HR. exact (Hgood l f HR Hl).
+Qed.
+
+(* exactly the reachable fields *)
+Theorem xi_dfs_visits_exactly_reachable all frags l out seen' :
+  XiDfs all frags [] l out seen' -> forall f, In f out <-> XiReach all frags l f.
+Proof.
+  intros H f. split.
+  - exact (xi_dfs_visits_reachable _ _ _ _ _ _ H f).
+  - exact (xi_dfs_visits_all_reachable _ _ _ _ _ H f).
+Qed.
+
+(* the iterators yield exactly the reachable fields *)
+Theorem xi_iter_exactly_reachable all d sels l :
+  xi_iter all d sels = Some l -> forall f, In f l <-> XiReach all (xd_frags d) sels f.
+Proof.
+  intros E. destruct (xi_dfs_fields_once_spec all d sels) as (l' & s & H & _).
+  rewrite (xi_iter_dfs _ _ _ _ _ H) in E. injection E as <-.
+  exact (xi_dfs_visits_exactly_reachable _ _ _ _ _ H).
+Qed.
